@@ -102,6 +102,43 @@ fn c12_png_box_map_small_grammar() {
                         println!("VERIF-B-VIOLATION key={k} input=chunks={:?} trailing={trailing} cut={cut} of {}", s.iter().map(|(t, dl)| (String::from_utf8_lossy(types[*t]).to_string(), *dl)).collect::<Vec<_>>(), f2.len());
                     }
                 }
+                // data-hash regions (second sentence of C12): the manifest region lies within the file and overlaps no other region
+                // (only when the scanner sees the caBX chunk, i.e. it comes before the first IEND: otherwise the handler reports
+                // the layout the file will have AFTER a manifest is inserted, which is not a statement about this file)
+                let first_cabx = s.iter().position(|(t, _)| types[*t] == b"caBX");
+                let first_iend = s.iter().position(|(t, _)| types[*t] == b"IEND");
+                if first_cabx.is_some_and(|c| first_iend.map_or(true, |e| c < e)) {
+                    let mut cur = Cursor::new(bytes.to_vec());
+                    let got = std::panic::catch_unwind(std::panic::AssertUnwindSafe(|| PngIO {}.get_object_locations_from_stream(&mut cur)));
+                    let key2: Option<&str> = match got {
+                        Err(_) => Some("object_locations.png.panic"),
+                        Ok(Err(_)) => None,
+                        Ok(Ok(pos)) => {
+                            let n = bytes.len();
+                            let cai: Vec<&HashObjectPositions> = pos.iter().filter(|p| p.htype == HashBlockObjectType::Cai).collect();
+                            let others: Vec<&HashObjectPositions> = pos.iter().filter(|p| p.htype != HashBlockObjectType::Cai).collect();
+                            if cai.len() != 1 {
+                                Some("object_locations.png.not_one_manifest_region")
+                            } else if cai[0].offset.checked_add(cai[0].length).map_or(true, |e| e > n) {
+                                Some("object_locations.png.manifest_region_outside_file")
+                            } else if others.iter().any(|o| o.offset.checked_add(o.length).map_or(true, |e| e > n)) {
+                                Some("object_locations.png.region_outside_file")
+                            } else if others.iter().any(|o| o.length > 0 && o.offset < cai[0].offset + cai[0].length && cai[0].offset < o.offset + o.length) {
+                                Some("object_locations.png.manifest_region_overlaps_other_region")
+                            } else {
+                                None
+                            }
+                        }
+                    };
+                    evals += 1;
+                    if let Some(k) = key2 {
+                        let c = counts.entry(k.to_string()).or_insert(0);
+                        *c += 1;
+                        if *c <= 3 {
+                            println!("VERIF-B-VIOLATION key={k} input=chunks={:?} trailing={trailing} cut={cut} of {}", s.iter().map(|(t, dl)| (String::from_utf8_lossy(types[*t]).to_string(), *dl)).collect::<Vec<_>>(), f2.len());
+                        }
+                    }
+                }
             }
         }
     }
